@@ -40,6 +40,12 @@ func zzNewTransport(z *zzWorld, maxConns, maxIdle int) *Transport {
 	t := &Transport{MaxConnsPerHost: maxConns, MaxIdleConnsPerHost: maxIdle, Network: "zz", Codec: "zz"}
 	t.KeepAlive = time.Duration(vParam("tr.keepalive", 1000))
 	t.IdleConnTimeout = time.Duration(vParam("tr.idletimeout", 5000))
+	if !vSymbolic() {
+		// native replay: real clock. Ticks every millisecond, everything older than KeepAlive (1µs)
+		// is retired, nothing reaches IdleConnTimeout: the same branch outcomes the model chose.
+		t.ticker = time.Millisecond
+		t.IdleConnTimeout = time.Hour
+	}
 	t.Dial = func(network, address, codec string) (*Conn, error) {
 		z.dials[address]++
 		if !z.up[address] {
